@@ -109,6 +109,14 @@ def c09(tier, replay=None):
         if unicodedata.category(ch) in ("Cn",) or (unicodedata.category(ch).startswith("M")):
             ch = "a" + ch
         extra.append(ch)
+    # Latin-1 supplement exhaustively (all tiers), Latin Extended-A/B, Greek and Cyrillic exhaustively in the thorough tier:
+    # every character that has a case folding or a canonical decomposition (short-cuts for "simple" strings tend to
+    # draw their line somewhere in here)
+    for lo, hi in [(0x80, 0xFF)] + ([] if tier == "quick" else [(0x100, 0x24F), (0x370, 0x3FF), (0x400, 0x45F)]):
+        for cp in range(lo, hi + 1):
+            ch = chr(cp)
+            if unicodedata.category(ch) != "Cn" and (fold_full(ch) != ch or unicodedata.normalize("NFD", ch) != ch):
+                extra.append(ch)
     pairs = []
     for x in pool:
         for y in pool:
@@ -116,7 +124,7 @@ def c09(tier, replay=None):
                 if fold_full(x) == fold_full(y) or unicodedata.normalize("NFC", x) == unicodedata.normalize("NFC", y) or rnd.random() < (0.15 if tier == "quick" else 1.0):
                     pairs.append((x, y))
     for ch in extra:
-        for y in {ch.upper(), ch.lower(), unicodedata.normalize("NFD", ch), unicodedata.normalize("NFC", ch), ch.swapcase(), ch + "̀"}:
+        for y in {ch.upper(), ch.lower(), fold_full(ch), fold_full(ch).upper(), unicodedata.normalize("NFD", ch), unicodedata.normalize("NFC", ch), ch.swapcase(), ch + "̀"}:
             if y != ch and y:
                 pairs.append((ch, y))
     pairs = list(dict.fromkeys(pairs))
